@@ -12,6 +12,10 @@ fn pal_colors(p: &Palette) -> Value {
 }
 
 // ------------------------------------------------------------------ C16
+/// titles / authors / descriptions / colour names: ordinary text and text that resembles colour lines, headers or comments
+const META_STRINGS: [&str; 16] = ["My Palette 16", "A. Uthor", "dark tones", "Some Body 1996 04 12", "255 255 255 white", "10 20 30", "FFAA00", "#FFAA00", "Columns: 3",
+    "Name: other", "GIMP Palette", "JASC-PAL", "0100", "16", "$ff0000", "a;b,c"];
+
 pub fn c16(a: &Args) {
     let mut out = Out::create(&a.str("out", "work/C16/trace.ndjson"));
     let seed = a.u64("seed", 0);
@@ -113,12 +117,13 @@ pub fn c16(a: &Args) {
                         let mut p = Palette::new();
                         for i in 0..n {
                             let mut c = match (rep + i) % 4 { 0 => Color::new(r.gen(), r.gen(), r.gen()), 1 => Color::new(r.gen_range(0..10), r.gen_range(0..10), r.gen_range(0..10)), 2 => Color::new(r.gen_range(100..=255), 0, r.gen_range(0..100)), _ => Color::new(255, 255, 255) };
-                            if names == 1 && i % 2 == 0 { c.name = Some(format!("Colour {i}")); }
+                            if names == 1 && i % 2 == 0 { c.name = Some(if i % 6 == 0 { META_STRINGS[(fcase as usize + i) % META_STRINGS.len()].to_string() } else { format!("Colour {i}") }); }
                             p.push(c);
                         }
-                        if meta & 1 != 0 { p.title = "My Palette 16".to_string(); }
-                        if meta & 2 != 0 { p.author = "A. Uthor".to_string(); }
-                        if meta & 4 != 0 { p.description = "dark tones".to_string(); }
+                        // metadata strings (single line, no leading / trailing blanks) that look like other line types of the formats
+                        if meta & 1 != 0 { p.title = META_STRINGS[fcase as usize % META_STRINGS.len()].to_string(); }
+                        if meta & 2 != 0 { p.author = META_STRINGS[(fcase as usize / 3) % META_STRINGS.len()].to_string(); }
+                        if meta & 4 != 0 { p.description = META_STRINGS[(fcase as usize / 7) % META_STRINGS.len()].to_string(); }
                         let variant = format!("n={n},title={},author={},descr={},names={names}", meta & 1, (meta >> 1) & 1, (meta >> 2) & 1);
                         let res = guard(|| { let bytes = p.export_palette(fmt); Palette::load_palette(fmt, &bytes).map(|q| pal_colors(&q)).map_err(|e| e.to_string()) });
                         match res {
